@@ -2022,3 +2022,4 @@ func matchesByInvalidUTF8Fold(data, enum TV) bool {
 
 func TestProp(t *testing.T)   { ev.Prop(t, false, gen, check) }
 func TestReplay(t *testing.T) { ev.Replay(t, check) }
+func FuzzC14(f *testing.F)    { ev.FuzzProp(f, false, gen, check) }
